@@ -74,7 +74,7 @@ def pick_ks(vec, rng, tier):
         # others (the spec establishes path independence for every mixture of
         # partial runs; on the real code a deviation only interacts with the
         # few steps that read its key)
-        n = 3 if bcrypt else (len(ks) if rng.random() < 0.34 else 6)
+        n = 2 if bcrypt else (len(ks) if rng.random() < 0.34 else 6)
     if n == 0:
         return []
     if len(ks) <= n:
@@ -258,7 +258,7 @@ def run(ctx):
                                 "starting below schema 5 are a seeded sample of 600; quick: below schema 5 a seeded "
                                 "15 % of the documents whose deviation only steps >= 6 concern",
         "split_points": "thorough: all k for a seeded third of the documents starting at schema >= 5 and 6 seeded k "
-                        "for the others, 3 seeded k below schema 5; "
+                        "for the others, 2 seeded k below schema 5; "
                         "quick: 3 seeded k (one k for a quarter of the documents below schema 5)",
         "samples": samples,
     }
